@@ -3,19 +3,15 @@ namespace C17
 open Gen.Types Gen.Rhp4 C15
 
 /-!
-# C17, part 5 — the refresh constructors do not panic on good contracts when the values fit (`Fits`)
+# C17, part 5 — the renewal/refresh constructors do not panic on good contracts when the values fit (`Fits`)
 
 Together with `c17_pay_no_panic`, `c17_new_contract_no_panic`, `c17_contract_cost_no_panic`,
 `c17_renewal_cost_no_panic`, `c17_refresh_cost_no_panic`.  Every `Sub` in the refresh
 constructors is covered by the constructor invariant `Inv` (missed ≤ total ≤ host output).
 
-GAP (stated, not proved): the same statement for `RenewContract` (its only `Sub`s are
-`host output − host rollover` with `host rollover ≤ old total collateral ≤ old host output`,
-and differences of freshly built sums).  `c17_renew` shows that *whenever it returns* the
-result has all the stated properties; that it returns under `Inv` + `Fits` is exercised by
-the harness (key `c17-constructor-panic:RenewContract`).  The proof along the lines of
-`c17_refresh_partial_no_panic` makes Lean's unifier normalise `x + 2^64 - y` terms and does
-not terminate in reasonable time.
+`c17_renew_no_panic` covers `RenewContract` (its `Sub`s are `host output − host rollover`
+with `host rollover ≤ old total collateral ≤ old host output`, and differences of freshly
+built sums).  Proof hygiene: all facts are obtained *before* the generated body is unfolded.
 -/
 
 theorem cmp_gt_decide {a b : Currency} (ha : WF a) (hb : WF b) :
@@ -85,6 +81,81 @@ theorem c17_refresh_partial_no_panic (fc : V2FileContract) (p : HostPrices) (add
       simp only [c2, decide_true, ↓reduceIte, e11, e12, pure, Except.pure]
       exact ⟨_, rfl⟩
     · simp only [c2, decide_false, Bool.false_eq_true, ↓reduceIte, e11a, e12, pure, Except.pure]
+      exact ⟨_, rfl⟩
+
+/-- **RenewContract never panics** when total collateral ≤ host output (constructor
+invariant) and the priced quantities fit in 128 bits (`Fits`: the Go code panics by design
+on `Mul64`/`Add` overflow; both the partial products and the full ones are listed because
+`Mul64` is applied left to right).  `dur`/`ext` are the `uint64` differences exactly as the
+code computes them (`ExpirationHeight − prices.TipHeight`, `… − fc.ExpirationHeight`). -/
+theorem c17_renew_no_panic (fc : V2FileContract) (p : HostPrices) (addr : ByteArray) (rp : RPCRenewContractParams)
+    (hfc : FCWF fc) (hp : PricesWF p) (ha : WF rp.Allowance) (hc : WF rp.Collateral)
+    (hph : rp.ProofHeight + 144 < W)
+    (htc : val fc.TotalCollateral ≤ val fc.HostOutput.Value)
+    (dur ext : Nat)
+    (hdur : (rp.ProofHeight + 144 + W - p.TipHeight) % W = dur)
+    (hext : (rp.ProofHeight + 144 + W - fc.ExpirationHeight) % W = ext)
+    (fits1 : val p.Collateral * fc.Filesize < W2) (fits2 : val p.Collateral * fc.Filesize * dur < W2)
+    (fits3 : val p.StoragePrice * fc.Filesize < W2) (fits4 : val p.StoragePrice * fc.Filesize * ext < W2)
+    (fits5 : val rp.Collateral + val p.Collateral * fc.Filesize * dur
+              + val p.StoragePrice * fc.Filesize * ext + val p.ContractPrice < W2) :
+    ∃ r, RenewContract fc p addr rp = .ok r := by
+  have hE : (rp.ProofHeight + 144) % 18446744073709551616 = rp.ProofHeight + 144 := Nat.mod_eq_of_lt hph
+  have hdW : dur < W := by rw [← hdur]; exact Nat.mod_lt _ (by omega)
+  have heW : ext < W := by rw [← hext]; exact Nat.mod_lt _ (by omega)
+  obtain ⟨t1, e1, w1, v1⟩ := mul64_intro hp.coll hfc.fsz fits1
+  obtain ⟨t2, e2, w2, v2⟩ := mul64_intro w1 hdW (by rw [v1]; exact fits2)
+  rw [v1] at v2
+  obtain ⟨t3, e3, w3, v3⟩ := add_intro hc w2 (by rw [v2]; omega)
+  obtain ⟨t4, e4, w4, v4⟩ := mul64_intro hp.sp hfc.fsz fits3
+  obtain ⟨t5, e5, w5, v5⟩ := mul64_intro w4 heW (by rw [v4]; exact fits4)
+  rw [v4] at v5
+  obtain ⟨t6, e6, w6, v6⟩ := add_intro w3 w5 (by rw [v3, v2, v5]; omega)
+  obtain ⟨t7, e7, w7, v7⟩ := add_intro w6 hp.cp (by rw [v6, v3, v2, v5]; omega)
+  obtain ⟨t10, e10, w10, v10⟩ := sub_intro w7 w3 (by omega)
+  obtain ⟨t11, e11, w11, v11⟩ := sub_intro w10 hp.cp (by omega)
+  obtain ⟨t12, e12, w12, v12⟩ := sub_intro w3 hc (by omega)
+  have k1 := cmp_gt hfc.total w3
+  have k2 := cmp_gt hfc.renter ha
+  have hHR : ∃ t8, fc.HostOutput.Value.Sub (if fc.TotalCollateral.Cmp t3 > 0 then t3 else fc.TotalCollateral) = .ok t8 := by
+    by_cases c1 : fc.TotalCollateral.Cmp t3 > 0
+    · have := k1.mp c1
+      obtain ⟨t8, e8, _, _⟩ := sub_intro hfc.host w3 (by clear k1 k2; omega)
+      exact ⟨t8, by simp only [c1, ↓reduceIte]; exact e8⟩
+    · obtain ⟨t8, e8, _, _⟩ := sub_intro hfc.host hfc.total htc
+      exact ⟨t8, by simp only [c1, ↓reduceIte]; exact e8⟩
+  have hRR : ∃ t9, fc.RenterOutput.Value.Sub (if fc.RenterOutput.Value.Cmp rp.Allowance > 0 then rp.Allowance else fc.RenterOutput.Value) = .ok t9 := by
+    by_cases c2 : fc.RenterOutput.Value.Cmp rp.Allowance > 0
+    · have := k2.mp c2
+      obtain ⟨t9, e9, _, _⟩ := sub_intro hfc.renter ha (by clear k1 k2; omega)
+      exact ⟨t9, by simp only [c2, ↓reduceIte]; exact e9⟩
+    · obtain ⟨t9, e9, _, _⟩ := sub_intro hfc.renter hfc.renter (Nat.le_refl _)
+      exact ⟨t9, by simp only [c2, ↓reduceIte]; exact e9⟩
+  obtain ⟨t8, e8⟩ := hHR
+  obtain ⟨t9, e9⟩ := hRR
+  clear k1 k2 hdW heW fits1 fits2 fits3 fits4 fits5 v1 v2 v3 v4 v5 v6 v7 v10 v11 v12 htc
+  unfold RenewContract
+  simp only [hE, hdur, hext]
+  clear hE hdur hext hph
+  simp only [e1, e2, e3, e4, e5, e6, e7, bind, Except.bind]
+  by_cases c1 : fc.TotalCollateral.Cmp t3 > 0
+  · simp only [c1, decide_true, ↓reduceIte] at e8 ⊢
+    simp only [e8]
+    by_cases c2 : fc.RenterOutput.Value.Cmp rp.Allowance > 0
+    · simp only [c2, decide_true, ↓reduceIte] at e9 ⊢
+      simp only [e9, e10, e11, V2FileContract.RiskedCollateral, e12, pure, Except.pure]
+      exact ⟨_, rfl⟩
+    · simp only [c2, decide_false, Bool.false_eq_true, ↓reduceIte] at e9 ⊢
+      simp only [e9, e10, e11, V2FileContract.RiskedCollateral, e12, pure, Except.pure]
+      exact ⟨_, rfl⟩
+  · simp only [c1, decide_false, Bool.false_eq_true, ↓reduceIte] at e8 ⊢
+    simp only [e8]
+    by_cases c2 : fc.RenterOutput.Value.Cmp rp.Allowance > 0
+    · simp only [c2, decide_true, ↓reduceIte] at e9 ⊢
+      simp only [e9, e10, e11, V2FileContract.RiskedCollateral, e12, pure, Except.pure]
+      exact ⟨_, rfl⟩
+    · simp only [c2, decide_false, Bool.false_eq_true, ↓reduceIte] at e9 ⊢
+      simp only [e9, e10, e11, V2FileContract.RiskedCollateral, e12, pure, Except.pure]
       exact ⟨_, rfl⟩
 
 end C17
